@@ -118,6 +118,18 @@ def random_client_id(length: int = 16, reserved: list = None, **kwargs):
     return client_id
 
 
+# Values the provider assigns to a client when it is registered
+PROVIDER_ASSIGNED = [
+    "client_id",
+    "client_id_issued_at",
+    "client_salt",
+    "client_secret",
+    "client_secret_expires_at",
+    "registration_access_token",
+    "registration_client_uri",
+]
+
+
 class Registration(Endpoint):
     request_cls = RegistrationRequest
     response_cls = RegistrationResponse
@@ -195,6 +207,9 @@ class Registration(Endpoint):
         logger.debug("_cinfo: %s" % sanitize(_cinfo))
 
         for key, val in request.items():
+            if key in PROVIDER_ASSIGNED and key in _cinfo:
+                # what the provider has just assigned is not for the request to choose
+                continue
             if key not in ignore:
                 _cinfo[key] = val
 
